@@ -4,7 +4,11 @@ d=$1; p=$2; t=${3:-quick}
 cd /repo || exit 2
 git diff --quiet || { echo "/repo is dirty"; exit 2; }
 git apply /verif/seeded/$d/patch.diff || { echo "patch does not apply"; exit 2; }
+# the evidence file describes the UNCHANGED tree: keep it aside while the seeded tree is checked
+[ -f /verif/evidence/$p.json ] && cp /verif/evidence/$p.json /tmp/tryseed_$p.evidence.keep
 cd /verif && ./run $p $t > /tmp/tryseed_$d.out 2>&1; rc=$?
+cp /verif/evidence/$p.json /tmp/tryseed_$d.evidence.json 2>/dev/null
+[ -f /tmp/tryseed_$p.evidence.keep ] && mv /tmp/tryseed_$p.evidence.keep /verif/evidence/$p.json
 git -C /repo checkout -- .
 echo "seed $d on $p: exit=$rc"
 grep -E "^VIOLATION|^KNOWN|^BROKEN|obligations," /tmp/tryseed_$d.out | cut -c1-250 | head -20
